@@ -297,4 +297,10 @@ def run(repo, chk):
         loops = [n for n in ast.walk(gl) if isinstance(n, ast.For) and src(n.iter) == dname]
         ok = len(loops) == 1 and [src(s) for s in loops[0].body] == ['yield from asm.Label(label).lines()', 'yield from directive.lines()']
         chk.expect(ok, 'C13.B3', f'gen_lines::{dname}', 'label then directive', GEN)
+    # ---------------- B4 the bytes a literal denotes (lexer side, shared with C12) ------------------------
+    if chk.__class__.__name__ == 'Check':
+        chk.rule('C13.B4', 'the lexer decodes escapes to the bytes they denote (escape table, \\xHH and \\u{...} readers) - shared with C12.R1/R2')
+        from . import c12
+        from ..report import Remap as _Remap
+        c12.run(repo, _Remap(chk, {'C12.R2': 'C13.B4'}))
     chk.not_decided = ['that the Sphinx assembler implements its own escape grammar as documented']
